@@ -72,6 +72,11 @@ BASES = {
     # name: schema, weights, nums, quickN, thoroughN
     "rows_cat_x_cat": (S.schema2("rows_cat_x_cat", A3, B3, weighted=True), (1, 2), (None,), 2, 3),
     "rows_cat_x_cat_num": (S.schema2("rows_cat_x_cat_num", A3, B3, numeric=dict(NUM)), (1,), (1, 3), 2, 2),
+    # numeric answers of both signs: sums cancel, so shares of a zero total are +-inf (a VALUE, not NaN)
+    "rows_cat_x_cat_pm_num": (S.schema2("rows_cat_x_cat_pm_num", A3, B3, numeric={"measures": ["sum"], "valid_counts": True}),
+                              (1,), (1, -1), 2, 3),
+    "strand_cat_pm_num": (Schema("strand_cat_pm_num", [A3], [("cat", 0)], numeric={"measures": ["sum"], "valid_counts": True}),
+                          (1,), (1, -1), 3, 4),
     "rows_cat_x_mr": (S.schema2("rows_cat_x_mr", A3, M2), (1,), (None,), 2, 2),
     "rows_mr_x_cat": (S.schema2("rows_mr_x_cat", M2, B3), (1,), (None,), 2, 2),
     "cols_cat_x_cat": (S.schema2("cols_cat_x_cat", B3, A3, weighted=True), (1, 2), (None,), 2, 3),
@@ -103,11 +108,15 @@ def _orders(name, tier):
                 oo["fixed"] = copy.deepcopy(FIXED[fi])
             out.append(oo)
     meas = [m for m in ALL_MEASURES if (m in NUMERIC_KEYS) == numeric or m in ("count_unweighted",)]
+    if "_pm_" in name:
+        meas = ["sum", "col_share_sum", "row_share_sum", "total_share_sum"]
     if name.startswith("rows_cat_x_cat"):
         for m in meas:
             for eid in (1, 3):
                 add({"type": "opposing_element", "element_id": eid, "measure": m})
             add({"type": "opposing_insertion", "insertion_id": 7, "measure": m})
+        if "_pm_" in name:
+            return out
         add({"type": "opposing_element", "element_id": STALE, "measure": "col_percent"})
         add({"type": "opposing_insertion", "insertion_id": 55, "measure": "col_percent"})
         add({"type": "opposing_element", "element_id": 1, "measure": "no_such_measure"})
@@ -139,6 +148,9 @@ def _orders(name, tier):
                 if d:
                     o["direction"] = d
                 out.append(o)
+    elif name == "strand_cat_pm_num":
+        for m in ("sum", "share_sum"):
+            add({"type": "univariate_measure", "measure": m})
     elif name.startswith("strand"):
         keys = list(STRAND_PUBLIC) + ["no_such_measure", "median"]
         for m in keys:
@@ -241,7 +253,10 @@ def _group_ok(vals_in_order, idx_in_order, descending):
             continue
         if seen_nan:
             return "a valued vector follows a NaN-valued one"
-        if prev is not None:
+        if prev is not None and not isinstance(v, str) and (math.isinf(v) or math.isinf(prev)):
+            if (descending and v > prev) or (not descending and v < prev):
+                return "not %s: %r after %r" % ("descending" if descending else "ascending", v, prev)
+        elif prev is not None:
             if descending and v > prev + 1e-12 * max(1.0, abs(prev)) if not isinstance(v, str) else (descending and v > prev):
                 return "not descending: %r after %r" % (v, prev)
             if not descending and (v < prev - 1e-12 * max(1.0, abs(prev)) if not isinstance(v, str) else v < prev):
